@@ -131,6 +131,14 @@ Alphabet ==
   \cup {MkOp("BrIf", <<d>>) : d \in 0..(MaxDepth - 1)}
   \cup {MkOp("BrTable", <<d, e>>) : d \in 0..1, e \in 0..1}
 
+\* a smaller alphabet (no nop / drop / loop / tail call) for longer strings; substituted for Alphabet in a config:
+\* every symbol is in Exec.tla's subset, so these strings are also *executed* before and after walrus (C01)
+ExecAlphabet ==
+  {MkOp(n, <<>>) : n \in {"Const", "Return", "Unreachable", "Block", "If", "Else", "End"}}
+  \cup {MkOp("Br", <<d>>) : d \in 0..(MaxDepth - 1)}
+  \cup {MkOp("BrIf", <<d>>) : d \in 0..1}
+  \cup {MkOp("BrTable", <<d, e>>) : d \in 0..1, e \in 0..1}
+
 \* --- emit: local_function/emit.rs, an in-order walk with a block stack -------------------------
 RECURSIVE EmitSeq(_, _, _)
 \* stack: enclosing sequence ids, innermost last; kind: how the sequence is opened
